@@ -138,7 +138,11 @@ func c25aTampers(pkt, other *frame.SendPacket, emit func(t c25aTamper, tampered 
 		c.Payload = []byte(base64.StdEncoding.EncodeToString(r))
 		emit(c25aTamper{Kind: "ciphertext-raw-bit", Index: bit}, c)
 	}
-	shapes := [][]byte{{}, []byte(base64.StdEncoding.EncodeToString(raw[:len(raw)-16])), []byte(base64.StdEncoding.EncodeToString(append(append([]byte(nil), raw...), raw[:16]...))),
+	block := raw
+	if len(block) > 16 {
+		block = raw[:16]
+	}
+	shapes := [][]byte{{}, []byte(base64.StdEncoding.EncodeToString(raw[:max(len(raw)-16, 0)])), []byte(base64.StdEncoding.EncodeToString(append(append([]byte(nil), raw...), block...))),
 		other.Payload, []byte("plain"), append(append([]byte(nil), pkt.Payload...), '\n')}
 	seenShape := map[string]bool{string(pkt.Payload): true}
 	for i, s := range shapes {
@@ -158,7 +162,7 @@ func c25aTampers(pkt, other *frame.SendPacket, emit func(t c25aTamper, tampered 
 		emit(c25aTamper{Kind: "msgkey-bit", Index: bit}, c)
 	}
 	seenKey := map[string]bool{pkt.MsgKey: true}
-	for i, k := range []string{"", strings.ToUpper(pkt.MsgKey), pkt.MsgKey[:31], pkt.MsgKey + "0", other.MsgKey, strings.Repeat("0", 32)} {
+	for i, k := range []string{"", strings.ToUpper(pkt.MsgKey), pkt.MsgKey[:max(len(pkt.MsgKey)-1, 0)], pkt.MsgKey + "0", other.MsgKey, strings.Repeat("0", 32)} {
 		if seenKey[k] {
 			continue
 		}
